@@ -7,6 +7,7 @@ package main
 import (
 	"flag"
 	"os"
+	"runtime/pprof"
 	"time"
 
 	_ "verifh/enum/codec"
@@ -21,6 +22,15 @@ func main() {
 	repo := flag.String("repo", "/repo", "repository under test")
 	replay := flag.String("replay", "", "replay file")
 	budget := flag.Duration("budget", 0, "wall-clock budget (0 = tier default)")
+	prof := flag.String("cpuprofile", "", "write a CPU profile (development)")
 	flag.Parse()
+	if *prof != "" {
+		f, _ := os.Create(*prof)
+		pprof.StartCPUProfile(f)
+		code := enumlib.Main(*prop, *tier, *verifDir, *repo, *replay, time.Duration(*budget))
+		pprof.StopCPUProfile()
+		f.Close()
+		os.Exit(code)
+	}
 	os.Exit(enumlib.Main(*prop, *tier, *verifDir, *repo, *replay, time.Duration(*budget)))
 }
